@@ -315,6 +315,30 @@ func c18GapHeaderLayout(c *rep.Ctx) {
 		}
 		acc := accessorIn(src)
 		if acc == "" {
+			// a constant / package-level zero value written in the arm that carries no value of the message
+			// (e.g. the empty id when the message has no original id): not a field write; coverage of the
+			// buffer is header-fully-written's business, and a field that loses its accessor write is
+			// reported below as not written
+			root := ast.Unparen(src)
+			for {
+				if sel, ok := root.(*ast.SelectorExpr); ok {
+					if _, isPkg := winfo.Uses[identOf(sel.X)].(*types.PkgName); isPkg {
+						root = sel.Sel
+						break
+					}
+					root = ast.Unparen(sel.X)
+					return true
+				}
+				break
+			}
+			if id, ok := root.(*ast.Ident); ok {
+				if o := winfo.Uses[id]; o != nil && o.Parent() == o.Pkg().Scope() {
+					return true
+				}
+			}
+			if tv, ok := winfo.Types[src]; ok && tv.Value != nil {
+				return true
+			}
 			c.Undecide(rule, wr.Name(), "header write whose value is not an accessor of the message: "+an.ExprString(call.Args[1]))
 			bad = true
 			return true
